@@ -219,6 +219,156 @@ fn case(ctx: &Ctx, part: &mut Part, pocket: u64, board: u64, canon_line: bool, l
     part.canon.push((cp, cb));
 }
 
+
+// ------------------------------------------------------------------------------------------------
+// call-SEQUENCE streams: `Isomorphism::from` is specified as a pure function, so its answer must not
+// depend on what was asked before on the same thread or what other threads ask meanwhile. For one
+// card set (5..7 cards) every split into 2 pocket cards + board is canonicalised back-to-back, then
+// A,B,A patterns, repeated identical calls, interleavings with `is_canonical` / `Permutation::from`,
+// and an observation followed by a relabeling of it. Every recorded answer is judged on its own
+// (relabel of *that* observation by its own permutation, inside *its* orbit with pocket and board kept
+// apart) and all answers recorded for one observation must coincide.
+
+#[derive(Clone, Copy)]
+enum Step {
+    Canon(usize),   // Isomorphism::from(obs[i]) — recorded
+    IsCanon(usize), // Isomorphism::is_canonical(&obs[i]) — recorded
+    Perm(usize),    // Permutation::from(&obs[i]) — executed for the interleaving only
+}
+
+fn subsets2(cards: &[u8]) -> Vec<(u64, u64)> {
+    let union: u64 = cards.iter().fold(0, |a, c| a | 1u64 << c);
+    let mut v = vec![];
+    for i in 0..cards.len() {
+        for j in i + 1..cards.len() {
+            let pocket = 1u64 << cards[i] | 1u64 << cards[j];
+            v.push((pocket, union & !pocket));
+        }
+    }
+    v
+}
+
+fn seq_group(ctx: &Ctx, part: &mut Part, cards: &[u8], lines: bool, rot: usize, rng: &mut Rng) {
+    let deck = ctx.deck;
+    let mut obs = subsets2(cards);
+    let nsplit = obs.len();
+    obs.rotate_left(rot % nsplit);
+    // a relabeling of the first split (same or different card union, as it comes)
+    let pi = ctx.table[1 + rng.below(23) as usize].1;
+    obs.push((relabel(&pi, obs[0].0), relabel(&pi, obs[0].1)));
+    let img = obs.len() - 1;
+    let (i, j, k) = (rng.below(nsplit as u64) as usize, rng.below(nsplit as u64) as usize, rng.below(nsplit as u64) as usize);
+    let mut script: Vec<Step> = vec![];
+    // 1. every re-split of the same cards, back to back
+    (0..nsplit).for_each(|x| script.push(Step::Canon(x)));
+    // 2. A, B, A and A, B, B, A
+    script.extend([Step::Canon(i), Step::Canon(j), Step::Canon(i)]);
+    script.extend([Step::Canon(k), Step::Canon(i), Step::Canon(i), Step::Canon(k)]);
+    // 3. repeated identical calls
+    script.extend([Step::Canon(j), Step::Canon(j), Step::Canon(j)]);
+    // 4. interleaved with the other entry points
+    script.extend([Step::Canon(i), Step::IsCanon(j), Step::Perm(j), Step::Canon(j), Step::IsCanon(i), Step::Perm(k), Step::Canon(k), Step::IsCanon(k)]);
+    // 5. an observation, a relabeling of it, the observation again, in reverse order of the splits
+    script.extend([Step::Canon(0), Step::Canon(img), Step::Canon(0)]);
+    (0..nsplit).rev().for_each(|x| script.push(Step::Canon(x)));
+    // ---- run the script tightly on this thread
+    let mk = |(p, b): (u64, u64)| Observation::from((Hand::from(p), Hand::from(b)));
+    let mut canon_ans: Vec<(usize, Option<(u64, u64)>)> = Vec::with_capacity(script.len());
+    let mut iscanon_ans: Vec<(usize, bool)> = vec![];
+    for st in &script {
+        match *st {
+            Step::Canon(x) => {
+                let o = obs[x];
+                let r = catch(move || {
+                    let c = Observation::from(Isomorphism::from(mk(o)));
+                    (u64::from(*c.pocket()), u64::from(*c.public()))
+                });
+                canon_ans.push((x, r));
+            }
+            Step::IsCanon(x) => {
+                let o = obs[x];
+                if let Some(r) = catch(move || Isomorphism::is_canonical(&mk(o))) {
+                    iscanon_ans.push((x, r));
+                }
+            }
+            Step::Perm(x) => {
+                let o = obs[x];
+                let _ = catch(move || Permutation::from(&mk(o)));
+            }
+        }
+        part.evaluations += 1;
+    }
+    // ---- judge every recorded answer
+    let mut first: Vec<Option<(u64, u64)>> = vec![None; obs.len()];
+    for (n, (x, r)) in canon_ans.iter().enumerate() {
+        let (pocket, board) = obs[*x];
+        let op = format!("{deck} canon {pocket} {board}");
+        let input = format!("{deck} pocket={pocket} board={board} (call {n} of a {}-call sequence on one thread over the card set {})", canon_ans.len(), pocket | board);
+        let Some((cp, cb)) = *r else {
+            if lines {
+                part.lines.push((op, "panic".into()));
+            }
+            part.fail("seq-canon-panics", &input, "a canonical form", "panic");
+            continue;
+        };
+        // the rest of the answer line; none of these goes through Isomorphism::from
+        let rest = catch(move || {
+            let o = mk((pocket, board));
+            let perm = Permutation::from(&o);
+            let icc = catch(move || Isomorphism::is_canonical(&mk((cp, cb))));
+            (perm, Isomorphism::is_canonical(&o), icc)
+        });
+        let Some((perm, ico, icc)) = rest else {
+            part.fail("seq-perm-panics", &input, "a permutation", "panic");
+            continue;
+        };
+        let pd = digits(&perm);
+        if lines {
+            let d = pd.map(|p| pistr(&p)).unwrap_or("????".into());
+            let icc_s = icc.map(|b| (b as u8).to_string()).unwrap_or("panic".into());
+            part.lines.push((op, format!("{cp} {cb} {d} {} {icc_s}", ico as u8)));
+        }
+        part.spec_checked += 1;
+        if let Some(p) = pd {
+            if relabel(&p, pocket) != cp || relabel(&p, board) != cb {
+                part.fail("seq-canon-not-relabel-by-its-perm", &input,
+                    &format!("pocket={} board={} (relabel by {})", relabel(&p, pocket), relabel(&p, board), pistr(&p)),
+                    &format!("pocket={cp} board={cb}"));
+            }
+        }
+        if !ctx.table.iter().any(|(_, pi)| relabel(pi, pocket) == cp && relabel(pi, board) == cb) {
+            part.fail("seq-canon-outside-orbit", &input, "one of the 24 relabelings of this observation, pocket and board kept apart", &format!("pocket={cp} board={cb}"));
+        }
+        if icc != Some(true) {
+            part.fail("seq-canon-not-recognised", &input, "is_canonical(canon o) = true", &format!("{icc:?}"));
+        }
+        match first[*x] {
+            None => first[*x] = Some((cp, cb)),
+            Some(f) => {
+                if f != (cp, cb) {
+                    part.fail("seq-canon-depends-on-call-history", &input, &format!("the answer of the earlier call: {} {}", f.0, f.1), &format!("{cp} {cb}"));
+                }
+            }
+        }
+    }
+    // invariance inside the sequence: the relabeled first split has the canonical form of the first split
+    if let (Some(a), Some(b)) = (first[0], first[img]) {
+        part.spec_checked += 1;
+        if a != b {
+            part.fail("seq-canon-not-invariant", &format!("{deck} permute {} {} {}", pistr(&pi), obs[0].0, obs[0].1), &format!("{} {}", a.0, a.1), &format!("{} {}", b.0, b.1));
+        }
+    }
+    for (x, r) in iscanon_ans {
+        part.spec_checked += 1;
+        if let Some(c) = first[x] {
+            if r != (c == obs[x]) {
+                part.fail("seq-is-canonical-disagrees-with-canon", &format!("{deck} pocket={} board={}", obs[x].0, obs[x].1), &format!("{}", c == obs[x]), &format!("{r}"));
+            }
+        }
+    }
+    *part.dist.entry(format!("sequence cards={} splits={nsplit}", cards.len())).or_insert(0) += 1;
+}
+
 fn cards_of(mask: u64) -> Vec<u8> {
     (0..64u8).filter(|i| mask >> i & 1 == 1).collect()
 }
@@ -377,7 +527,7 @@ fn main() {
         let pocket = rng.cards(2, pool);
         let board = rng.cards(n, pool & !pocket);
         let picks = [rng.below(24) as usize, rng.below(24) as usize];
-        case(&ctx, &mut part, pocket, board, (k / 3) % 3 == 0, true, &picks); // every street gets canon lines
+        case(&ctx, &mut part, pocket, board, (k / 3) % 5 == 0, true, &picks); // every street gets canon lines
         if part.lines.len() > 200_000 {
             let p = std::mem::take(&mut part);
             merge(&mut run, p);
@@ -385,11 +535,56 @@ fn main() {
     }
     merge(&mut run, part);
 
+
+    // ---- call sequences on one thread, the same card sets from several threads at once
+    let ngroups_lines = if a.thorough() { 12_000 } else { 1_500 };
+    let ngroups_more = if a.thorough() { 120_000 } else { 24_000 };
+    let mut groups: Vec<Vec<u8>> = vec![];
+    for g in 0..ngroups_lines + ngroups_more {
+        let n = 5 + g % 3;
+        let pool = if g % 8 == 7 {
+            let r0 = rng.below(all.len() as u64 / 4 - 2) as usize * 4;
+            all[r0..r0 + 12].iter().fold(0, |acc, c| acc | 1u64 << c)
+        } else {
+            full
+        };
+        groups.push(cards_of(rng.cards(n, pool)));
+    }
+    let nthreads = 4usize;
+    let seeds: Vec<Rng> = (0..nthreads).map(|_| rng.fork()).collect();
+    let ctxr = &ctx;
+    let groupsr = &groups;
+    let parts: Vec<Part> = std::thread::scope(|s| {
+        let hs: Vec<_> = seeds
+            .into_iter()
+            .enumerate()
+            .map(|(t, mut trng)| {
+                s.spawn(move || {
+                    let mut part = Part::default();
+                    for (g, cards) in groupsr.iter().enumerate() {
+                        // every thread walks the groups that carry lines (thread 0 writes them, the others ask the
+                        // same card sets in a rotated order at the same time); the remaining groups are shared out
+                        if g < ngroups_lines || g % nthreads == t {
+                            seq_group(ctxr, &mut part, cards, t == 0 && g < ngroups_lines, t * 3 + g, &mut trng);
+                        }
+                    }
+                    part
+                })
+            })
+            .collect();
+        hs.into_iter().map(|h| h.join().expect("sequence worker")).collect()
+    });
+    for p in parts {
+        merge(&mut run, p);
+    }
+
     run.exhaustive = false;
     run.rule = format!(
-        "deck={deck}: all {} pre-flop observations x all 24 relabelings (exhaustive, every image a correspondence line){} + {nrandom} random flop/turn/river observations (1/8 drawn from three adjacent ranks so that tied suits are frequent) x all 24 relabelings through the real permute/Isomorphism::from/is_canonical; correspondence lines: canon of every pre-flop and every third random observation + all 24 (pre-flop) or 2 random (post-flop) permute images; oracle on all 24 images of every observation; distinct_nontrivial = distinct canonical forms reached; exhaustive for pre-flop{}, sampled for the later streets",
+        "deck={deck}: all {} pre-flop observations x all 24 relabelings (exhaustive, every image a correspondence line){} + {nrandom} random flop/turn/river observations (1/8 drawn from three adjacent ranks so that tied suits are frequent) x all 24 relabelings through the real permute/Isomorphism::from/is_canonical; correspondence lines: canon of every pre-flop and every fifth random observation + all 24 (pre-flop) or 2 random (post-flop) permute images; oracle on all 24 images of every observation; plus call-sequence streams: for {} random card sets of 5/6/7 cards every split into pocket+board is canonicalised back-to-back on one thread, then A,B,A / A,B,B,A patterns, repeated calls, interleavings with is_canonical and Permutation::from, an observation followed by a relabeling of it ({} of the sets as canon correspondence lines, those sets asked by 4 threads concurrently in rotated order), each answer judged for its own observation and against the other answers for the same observation; distinct_nontrivial = distinct canonical forms reached; exhaustive for pre-flop{}, sampled for the later streets",
         all.len() * (all.len() - 1) / 2,
         if a.thorough() { " + all flop observations x 24 (exhaustive, oracle on all, 1/97 as correspondence lines)" } else { "" },
+        ngroups_lines + ngroups_more,
+        ngroups_lines,
         if a.thorough() { " and flop" } else { "" },
     );
     run.finish();
